@@ -454,6 +454,37 @@ def run(prog, rep, tier):
                 rep.violation(R118, "dt_pattern_has_year|year=%s,epoch=%s" % (yv, ev), "dt_pattern_has_year() is true for the %d table rows with year=%s, epoch=%s, which carry no year; their messages keep the dummy year" % (len(idxs), yv, ev))
     rep.floor("R11.8", 3)
 
+    # ------------------------------------------------------------ R11.9 a modification time before 1970 keeps its instant
+    # chrono's from_timestamp(secs, nanos) counts nanos *forward* from secs.  For a time d before the
+    # epoch (d = s + f seconds) the instant is -(s+1) seconds + (1e9 - f) nanoseconds; negating the
+    # seconds and passing the fraction unchanged lands up to a second late - across a year boundary for
+    # an mtime in the last second of a year, which is what the year inference starts from.
+    R119 = rep.rule("R11.9", "the pre-epoch branch of systemtime_to_datetime complements the sub-second part")
+    STD = "s4lib::data::datetime::systemtime_to_datetime"
+    bodies_ = [prog.body(STD)] + [prog.body(p_) for p_ in sorted(prog.facts.bodies) if p_.startswith(STD + "::{closure")]
+    neg_calls = []
+    for b_ in bodies_:
+        for c in b_.live_calls():
+            if c.d.endswith("::from_timestamp") and c.args:
+                negd = any(x[0] == "un" or (x[0] in ("bin",) and False) for x in b_.origins(c.args[0])) or \
+                    any(st_[0] == "=" and st_[2][0] == "un" and st_[2][1] == "Neg" and st_[1] == [op_local(c.args[0])] for bb_ in b_.live for st_ in b_.stmts(bb_))
+                if negd:
+                    raw = any(x[0] == "call" and x[2].endswith("::subsec_nanos") for x in b_.origins(c.args[1])) if len(c.args) > 1 and c.args[1][0] != "k" else False
+                    neg_calls.append((b_.path, c.line, raw))
+    comp = False
+    pb_ = prog.body(STD)
+    for bb_ in sorted(pb_.live):
+        for st_ in pb_.stmts(bb_):
+            if st_[0] == "=" and st_[2][0] == "bin" and st_[2][1].startswith("Sub") and pb_.eval_int(st_[2][2]) == 1000000000:
+                if any(x[0] == "call" and x[2].endswith("::subsec_nanos") for x in pb_.origins(st_[2][3])):
+                    comp = True
+    rep.examined(R119, STD, sample={"from_timestamp_calls_with_negated_seconds": [(p_.split("::")[-1], l_, "raw fraction" if r_ else "derived") for p_, l_, r_ in neg_calls], "complement_1e9_minus_fraction_present": comp})
+    if not neg_calls:
+        raise CheckerError("systemtime_to_datetime: no pre-epoch conversion (negated seconds) recognised")
+    if any(r_ for _, _, r_ in neg_calls) or not comp:
+        rep.violation(R119, STD + "|pre-epoch", "systemtime_to_datetime: for a time before 1970 the seconds are negated but the sub-second part is passed on unchanged (no 1e9 - fraction); "
+                      "an mtime of 1965-12-31T23:59:59.5Z becomes 1966-01-01T00:00:00.5Z... one second late, and every message of a year-less log is dated a year late")
+
     # ------------------------------------------------------------ R11.7
     # The backward walk re-reads a message under the earlier year after a wrap.  The end of a
     # message is found by parsing the following lines *with the same assumed year*; a line that
